@@ -154,13 +154,21 @@ def chain_f(x, stage=0):
     return None if r == 'n' else r
 
 
+def make_stage(tab):
+    """every stage function made here has the same module and qualified name"""
+    def stage(x):
+        r = tab[x]
+        return None if r == 'n' else r
+    return stage
+
+
 def chain_cases(ctx):
     """k stages chained; stage functions are tables int -> int | None; compared with the composed spec of the model"""
     global CHAIN
     from generatorpipeline import pipeline
     rng = ctx.rng
     lines, metas = [], []
-    for _ in range(ctx.scale(25, 200)):
+    for _ in range(ctx.scale(60, 400)):
         k = rng.choice([2, 2, 3])
         n = rng.choice([0, 3, 6, 10])
         tables, cfgs = [], []
@@ -169,9 +177,17 @@ def chain_cases(ctx):
             cfgs.append(dict(nworkers=rng.choice([0, 1, 2, 3]), extracache=rng.choice([0, 1, 2]), skipNone=True))
         CHAIN = tables
         stream = iter(range(n))
+        style = rng.choice(['module+kwargs', 'closures-of-one-factory', 'lambdas-of-one-scope'])
+        lams = [(lambda x, t=t: None if t[x] == 'n' else t[x]) for t in tables]
         for s in range(k):
-            P = pipeline(cfgs[s]['nworkers'], extracache=cfgs[s]['extracache'])(chain_f)
-            stream = P(stream, stage=s)
+            if style == 'module+kwargs':
+                P = pipeline(cfgs[s]['nworkers'], extracache=cfgs[s]['extracache'])(chain_f)
+                stream = P(stream, stage=s)
+            else:
+                fn = make_stage(tables[s]) if style == 'closures-of-one-factory' else lams[s]
+                P = pipeline(cfgs[s]['nworkers'], extracache=cfgs[s]['extracache'])(fn)
+                stream = P(stream)
+        ctx.count('chain_style:' + style)
         try:
             got = list(stream)
         except Exception as e:  # noqa
@@ -179,7 +195,7 @@ def chain_cases(ctx):
         exp = list(range(n))
         for s in range(k):
             exp = [tables[s][x] for x in exp if tables[s][x] != 'n']
-        case = dict(chain=[{str(a): b for a, b in t.items()} for t in tables], cfgs=cfgs, n=n)
+        case = dict(chain=[{str(a): b for a, b in t.items()} for t in tables], cfgs=cfgs, n=n, style=style)
         ctx.case(('chain', case), n > 0)
         ctx.count('label:chain')
         if got != exp:
